@@ -98,6 +98,15 @@ func initZZ() {
 		}
 		return n
 	})
+	Z("EventText", func(fr *frame, a []value) value {
+		kind := strArg(a[0])
+		for _, ev := range fr.e.events {
+			if strings.HasPrefix(ev, kind+":") {
+				return ev
+			}
+		}
+		return ""
+	})
 	Z("GoroutineCrashes", func(fr *frame, a []value) value { return len(fr.e.gorCrashes) })
 	Z("Drain", func(fr *frame, a []value) value { fr.e.drain(); return nil })
 	Z("SchedExplore", func(fr *frame, a []value) value {
@@ -199,7 +208,7 @@ func (e *Engine) freezeGlobals() {
 		if g.Pkg == nil || !e.P.InitAllow(g.Pkg.Pkg.Path()) || strings.HasSuffix(g.Pkg.Pkg.Path(), "zzverif") {
 			continue
 		}
-		if strings.HasPrefix(g.Name(), "init$") {
+		if strings.HasPrefix(g.Name(), "init$") || strings.HasPrefix(g.Name(), "zz") {
 			continue
 		}
 		p := e.globals[g]
@@ -249,6 +258,14 @@ func (e *Engine) freezeWalk(v value, path string, seen map[interface{}]bool, dep
 			}
 		}
 	case structure:
+		if len(v) == 3 {
+			if _, ok := v[0].(rtype); ok {
+				// a reflect.Value held by the tree (LiteralExpr.Literal,
+				// CallExpr.Func): the node's slots are frozen, the value it
+				// refers to is run-time data, not syntax
+				return
+			}
+		}
 		for i := range v {
 			e.freezeWalk(v[i], fmt.Sprintf("%s.f%d", path, i), seen, depth+1)
 		}
